@@ -149,6 +149,17 @@ def make(shape: Dict[str, Any]) -> Any:
         ctx.check(not loop.callback_exceptions, f'exception in a timer callback: {loop.callback_exceptions[:1]}')
         sent_idents = sorted({ident(r) for s in env.sent_log(zc) for r, _ in s.out.answers})
         ctx.check(sent_idents == sorted(expected), f'the listener transmitted answers {[g[:3] for g in sent_idents]} for a query whose answers are {[e[:3] for e in sorted(expected)]}')
+        # ---- the same query once more after replies have been built and sent: nothing an earlier reply did may change the next one
+        qa3 = zc.query_handler.async_response([mk_query(loop.now_ms, questions, known_recs, data=b'third')], False)
+        got3: Dict[Any, Any] = {}
+        if qa3 is not None:
+            for d in (qa3.ucast, qa3.mcast_now, qa3.mcast_aggregate, qa3.mcast_aggregate_last_second):
+                got3.update(d)
+        ctx.check(sorted(ident(r) for r in got3) == sorted(expected), 'asked again after a reply was sent, the answers differ')
+        for rec, adds in got3.items():
+            e = expected.get(ident(rec))
+            if e is not None:
+                ctx.check(sorted(ident(a) for a in adds) == sorted(a[0].ident for a in e[3]), f'asked again after a reply was sent, the additionals of {ident(rec)[:3]} differ')
         if got:
             out = construct_outgoing_multicast_answers(got)
             ans = [r for r, _ in out.answers]
@@ -179,6 +190,8 @@ SCRIPTS = {
     'inplace-update': _s('reg:S1', 'touch:S1', 'inplace:S1p'),
     'inplace-readd': _s('reg:S1', 'touch:S1', 'inplace-readd:S1p'),
     'three': _s('reg:S1', 'reg:S2', 'reg:S3'),
+    'touch-then-register': _s('reg:S1', 'touch:S1', 'reg:S2'),
+    'touch-then-unregister': _s('reg:S1', 'reg:S2', 'touch:S1', 'unreg:S2'),
     'default-server': _s('reg:S6'),
     'default-server-removed': _s('reg:S3', 'reg:S6', 'unreg:S6'),
 }
@@ -193,6 +206,7 @@ QUESTIONS = {
     'ptr+srv': [(T1, PTR), ('Alpha._http._tcp.local.', SRV)], 'a+aaaa': [('alpha.local.', A), ('alpha.local.', AAAA)],
     'ptr1+ptr2': [(T1, PTR), (T2, PTR)], 'srv+txt': [('Alpha._http._tcp.local.', SRV), ('Alpha._http._tcp.local.', TXT)],
     'srv-eps': [('epsilon._http._tcp.local.', SRV)], 'ptr-gamma-srv': [(T2, PTR), ('Gamma._ipp._tcp.local.', SRV)],
+    'srv+a': [('Alpha._http._tcp.local.', SRV), ('alpha.local.', A)], 'srv+a+aaaa': [('Alpha._http._tcp.local.', SRV), ('alpha.local.', A), ('alpha.local.', AAAA)],
     'a-zeta': [('Zeta Printer._ipp._tcp.local.', A)], 'aaaa-zeta-low': [('zeta printer._ipp._tcp.local.', AAAA)], 'srv-zeta': [('Zeta Printer._ipp._tcp.local.', SRV)],
 }
 QUICK = [
@@ -204,6 +218,8 @@ QUICK = [
     ('subtype', 'sub', []), ('subtype', 'ptr2', []), ('upper', 'ptr1', []), ('upper', 'a-eps', [('S5', 'A')]), ('upper', 'srv-eps', []),
     ('empty', 'ptr1', []), ('empty', 'enum', []), ('one', 'ptr1-up', []), ('one', 'a-up', []), ('one', 'ptr+srv', [('S1', 'SRV')]),
     ('one', 'a+aaaa', []), ('inplace-update', 'ptr1', []), ('inplace-update', 'srv', []), ('inplace-update', 'a', []), ('inplace-readd', 'ptr1', []), ('three', 'ptr1+ptr2', [('S3', 'PTR')]), ('one', 'unreg-name', []),
+    ('one', 'srv+a', []), ('one', 'srv+a+aaaa', []), ('shared-host', 'srv+a', []),
+    ('touch-then-register', 'ptr1', []), ('touch-then-unregister', 'ptr1', []), ('touch-then-register', 'a', []),
     ('default-server', 'a-zeta', []), ('default-server', 'aaaa-zeta-low', []), ('default-server', 'srv-zeta', []), ('default-server', 'ptr2', []), ('default-server-removed', 'a-zeta', []),
 ]
 
